@@ -14,12 +14,32 @@ open Parmcb.C01 Parmcb.C02
 namespace SignedAlgoL
 open Parmcb.Spanner Parmcb.CertL Parmcb.SgL Parmcb.BiDijL
 
-theorem sgAdjE_size (g : Graph) (S hidden : List Nat) : (sgAdjE g S hidden).size = 2 * g.n := by
+theorem insertByOrd_perm (ord : List Nat) (p : Nat × Nat) : ∀ l : List (Nat × Nat), (insertByOrd ord p l).Perm (p :: l)
+  | [] => List.Perm.refl _
+  | q :: r => by
+    unfold insertByOrd
+    split
+    · exact List.Perm.refl _
+    · exact ((insertByOrd_perm ord p r).cons q).trans (List.Perm.swap p q r)
+
+/-- the out-edges in the caller's order are a permutation of the out-edges by edge id -/
+theorem adjOrd_perm (g : Graph) (ord : List Nat) (v : Nat) : (adjOrd g ord v).Perm (g.adj v) := by
+  unfold adjOrd
+  induction g.adj v with
+  | nil => exact List.Perm.refl _
+  | cons p l ih =>
+    rw [List.foldr_cons]
+    exact (insertByOrd_perm ord p _).trans (ih.cons p)
+
+theorem mem_adjOrd (g : Graph) (ord : List Nat) (v : Nat) (x : Nat × Nat) : x ∈ adjOrd g ord v ↔ x ∈ g.adj v :=
+  (adjOrd_perm g ord v).mem_iff
+
+theorem sgAdjE_size (g : Graph) (ord : List Nat) (S hidden : List Nat) : (sgAdjE g ord S hidden).size = 2 * g.n := by
   unfold sgAdjE; exact Array.size_ofFn
 
-theorem sgAdjE_get (g : Graph) (S hidden : List Nat) (x : Nat) (hx : x < 2 * g.n) :
-    (sgAdjE g S hidden)[x]! =
-      (g.adj (if x < g.n then x else x - g.n)).filterMap fun (e, w) =>
+theorem sgAdjE_get (g : Graph) (ord : List Nat) (S hidden : List Nat) (x : Nat) (hx : x < 2 * g.n) :
+    (sgAdjE g ord S hidden)[x]! =
+      (adjOrd g ord (if x < g.n then x else x - g.n)).filterMap fun (e, w) =>
         if hidden.contains e then none
         else if w = (if x < g.n then x else x - g.n) then none
         else some (sgNode g.n w (if S.contains e then !(decide (x < g.n)) else decide (x < g.n)), g.weight e, e) := by
@@ -34,11 +54,11 @@ theorem sgNode_inj (n a b : Nat) (sa sb : Bool) (ha : a < n) (hb : b < n)
   unfold sgNode at h
   cases sa <;> cases sb <;> simp at h <;> first | (exact ⟨h, rfl⟩) | omega
 
-theorem mem_sgAdjE (g : Graph) (hs : g.simpleB = true) (S hidden : List Nat) (a : Nat) (s : Bool) (ha : a < g.n)
+theorem mem_sgAdjE (g : Graph) (ord : List Nat) (hs : g.simpleB = true) (S hidden : List Nat) (a : Nat) (s : Bool) (ha : a < g.n)
     (y : Nat) (c : Int) (e : Nat) :
-    (y, c, e) ∈ (sgAdjE g S hidden)[sgNode g.n a s]! ↔
+    (y, c, e) ∈ (sgAdjE g ord S hidden)[sgNode g.n a s]! ↔
       e < g.m ∧ e ∉ hidden ∧ c = g.weight e ∧ ∃ b, Jn g e a b ∧ y = sgNode g.n b (xor s (S.contains e)) := by
-  rw [sgAdjE_get g S hidden _ (sgNode_lt g.n a s ha)]
+  rw [sgAdjE_get g ord S hidden _ (sgNode_lt g.n a s ha)]
   have hv : (if sgNode g.n a s < g.n then sgNode g.n a s else sgNode g.n a s - g.n) = a := by
     unfold sgNode; cases s
     · simp only [Bool.false_eq_true, if_false]; rw [if_neg (by omega)]; omega
@@ -50,7 +70,7 @@ theorem mem_sgAdjE (g : Graph) (hs : g.simpleB = true) (S hidden : List Nat) (a 
   rw [hv, hd, List.mem_filterMap]
   constructor
   · rintro ⟨⟨e', w⟩, hmem, h⟩
-    rw [mem_adj] at hmem
+    rw [mem_adjOrd, mem_adj] at hmem
     simp only at h
     split at h
     · cases h
@@ -67,7 +87,7 @@ theorem mem_sgAdjE (g : Graph) (hs : g.simpleB = true) (S hidden : List Nat) (a 
         · rw [← h1]; congr 1; cases s <;> cases S.contains e' <;> rfl
   · rintro ⟨hem, hh, hc, b, hj, hy⟩
     have hf := simpleB_facts g hs e hem
-    refine ⟨(e, b), (mem_adj g a e b).2 ⟨hem, ?_⟩, ?_⟩
+    refine ⟨(e, b), (mem_adjOrd g ord a (e, b)).2 ((mem_adj g a e b).2 ⟨hem, ?_⟩), ?_⟩
     · rcases hj with ⟨p, q⟩ | ⟨p, q⟩
       · exact Or.inl ⟨p, q.symm⟩
       · exact Or.inr ⟨p, q.symm⟩
@@ -99,46 +119,46 @@ theorem jn_lt (g : Graph) (hs : g.simpleB = true) (e a b : Nat) (he : e < g.m) (
   rcases hj with ⟨p, q⟩ | ⟨p, q⟩ <;> (subst p; subst q; refine ⟨?_, ?_, ?_⟩ <;> omega)
 
 /-- the adjacency the searches run on is a well-formed edge-labelled undirected graph on `2n` signed nodes -/
-theorem sgAdjE_ok (g : Graph) (hs : g.simpleB = true) (hp : g.positiveB = true) (S hidden : List Nat) :
-    AdjEOK (sgAdjE g S hidden) g.weight ∧ (sgAdjE g S hidden).size = 2 * g.n := by
-  refine ⟨⟨⟨?_, ?_, ?_⟩, ?_, ?_⟩, sgAdjE_size g S hidden⟩
+theorem sgAdjE_ok (g : Graph) (ord : List Nat) (hs : g.simpleB = true) (hp : g.positiveB = true) (S hidden : List Nat) :
+    AdjEOK (sgAdjE g ord S hidden) g.weight ∧ (sgAdjE g ord S hidden).size = 2 * g.n := by
+  refine ⟨⟨⟨?_, ?_, ?_⟩, ?_, ?_⟩, sgAdjE_size g ord S hidden⟩
   · intro u hu p hp'
     rw [projAdj_size, sgAdjE_size] at hu ⊢
     rw [projAdj_get, List.mem_map] at hp'
     obtain ⟨⟨y, c, e⟩, hq, rfl⟩ := hp'
     obtain ⟨a, s, ha, rfl⟩ := exists_sgNode g.n u hu
-    obtain ⟨hem, _, _, b, hj, rfl⟩ := (mem_sgAdjE g hs S hidden a s ha y c e).1 hq
+    obtain ⟨hem, _, _, b, hj, rfl⟩ := (mem_sgAdjE g ord hs S hidden a s ha y c e).1 hq
     exact sgNode_lt _ _ _ (jn_lt g hs e a b hem hj).2.1
   · intro u hu p hp'
     rw [projAdj_size, sgAdjE_size] at hu
     rw [projAdj_get, List.mem_map] at hp'
     obtain ⟨⟨y, c, e⟩, hq, rfl⟩ := hp'
     obtain ⟨a, s, ha, rfl⟩ := exists_sgNode g.n u hu
-    obtain ⟨hem, _, rfl, _⟩ := (mem_sgAdjE g hs S hidden a s ha y c e).1 hq
+    obtain ⟨hem, _, rfl, _⟩ := (mem_sgAdjE g ord hs S hidden a s ha y c e).1 hq
     exact positiveB_facts g hp e hem
   · intro u hu p hp'
     rw [projAdj_size, sgAdjE_size] at hu
     rw [projAdj_get, List.mem_map] at hp' ⊢
     obtain ⟨⟨y, c, e⟩, hq, rfl⟩ := hp'
     obtain ⟨a, s, ha, rfl⟩ := exists_sgNode g.n u hu
-    obtain ⟨hem, hh, rfl, b, hj, rfl⟩ := (mem_sgAdjE g hs S hidden a s ha y c e).1 hq
+    obtain ⟨hem, hh, rfl, b, hj, rfl⟩ := (mem_sgAdjE g ord hs S hidden a s ha y c e).1 hq
     refine ⟨(sgNode g.n a s, g.weight e, e), ?_, rfl⟩
-    rw [mem_sgAdjE g hs S hidden b _ (jn_lt g hs e a b hem hj).2.1]
+    rw [mem_sgAdjE g ord hs S hidden b _ (jn_lt g hs e a b hem hj).2.1]
     refine ⟨hem, hh, rfl, a, hj.symm, ?_⟩
     congr 1; cases s <;> cases S.contains e <;> rfl
   · intro u hu p hp'
     rw [sgAdjE_size] at hu
     obtain ⟨y, c, e⟩ := p
     obtain ⟨a, s, ha, rfl⟩ := exists_sgNode g.n u hu
-    obtain ⟨_, _, rfl, _⟩ := (mem_sgAdjE g hs S hidden a s ha y c e).1 hp'
+    obtain ⟨_, _, rfl, _⟩ := (mem_sgAdjE g ord hs S hidden a s ha y c e).1 hp'
     rfl
   · intro u hu p hp'
     rw [sgAdjE_size] at hu
     obtain ⟨y, c, e⟩ := p
     obtain ⟨a, s, ha, rfl⟩ := exists_sgNode g.n u hu
-    obtain ⟨hem, hh, rfl, b, hj, rfl⟩ := (mem_sgAdjE g hs S hidden a s ha y c e).1 hp'
+    obtain ⟨hem, hh, rfl, b, hj, rfl⟩ := (mem_sgAdjE g ord hs S hidden a s ha y c e).1 hp'
     show (sgNode g.n a s, g.weight e, e) ∈ _
-    rw [mem_sgAdjE g hs S hidden b _ (jn_lt g hs e a b hem hj).2.1]
+    rw [mem_sgAdjE g ord hs S hidden b _ (jn_lt g hs e a b hem hj).2.1]
     refine ⟨hem, hh, rfl, a, hj.symm, ?_⟩
     congr 1; cases s <;> cases S.contains e <;> rfl
 
@@ -149,8 +169,8 @@ theorem levelAfter_cons (S : List Nat) (s : Bool) (e : Nat) (es : List Nat) :
     levelAfter S s (e :: es) = levelAfter S (xor s (S.contains e)) es := by
   unfold levelAfter; rw [par_cons, Bool.xor_assoc]
 
-theorem ewalk_to_walk_aux (g : Graph) (hs : g.simpleB = true) (S hidden : List Nat) (x y : Nat) (es : List Nat)
-    (h : EWalk (sgAdjE g S hidden) x y es) :
+theorem ewalk_to_walk_aux (g : Graph) (ord : List Nat) (hs : g.simpleB = true) (S hidden : List Nat) (x y : Nat) (es : List Nat)
+    (h : EWalk (sgAdjE g ord S hidden) x y es) :
     ∀ (a b : Nat) (sa sb : Bool), a < g.n → b < g.n → x = sgNode g.n a sa → y = sgNode g.n b sb →
       (∀ e ∈ es, e < g.m ∧ e ∉ hidden) ∧ isWalk g es a b = true ∧ levelAfter S sa es = sb := by
   induction h with
@@ -161,7 +181,7 @@ theorem ewalk_to_walk_aux (g : Graph) (hs : g.simpleB = true) (S hidden : List N
   | @cons x v y c e es hx hmem r ih =>
     intro a b sa sb ha hb h1 h2
     subst h1
-    obtain ⟨hem, hh, _, d, hj, rfl⟩ := (mem_sgAdjE g hs S hidden a sa ha v c e).1 hmem
+    obtain ⟨hem, hh, _, d, hj, rfl⟩ := (mem_sgAdjE g ord hs S hidden a sa ha v c e).1 hmem
     obtain ⟨i1, i2, i3⟩ := ih d b _ sb (jn_lt g hs e a d hem hj).2.1 hb rfl h2
     refine ⟨?_, (isWalk_cons g e es a b).2 ⟨d, hj, i2⟩, by rw [levelAfter_cons]; exact i3⟩
     intro f hf
@@ -170,16 +190,16 @@ theorem ewalk_to_walk_aux (g : Graph) (hs : g.simpleB = true) (S hidden : List N
     · exact i1 f hf
 
 /-- a walk in the signed graph is a walk in `g` that avoids the hidden edges and changes level once per signed edge … -/
-theorem ewalk_to_walk (g : Graph) (hs : g.simpleB = true) (S hidden : List Nat) (a b : Nat) (sa sb : Bool)
+theorem ewalk_to_walk (g : Graph) (ord : List Nat) (hs : g.simpleB = true) (S hidden : List Nat) (a b : Nat) (sa sb : Bool)
     (ha : a < g.n) (hb : b < g.n) (es : List Nat)
-    (h : EWalk (sgAdjE g S hidden) (sgNode g.n a sa) (sgNode g.n b sb) es) :
+    (h : EWalk (sgAdjE g ord S hidden) (sgNode g.n a sa) (sgNode g.n b sb) es) :
     (∀ e ∈ es, e < g.m ∧ e ∉ hidden) ∧ isWalk g es a b = true ∧ levelAfter S sa es = sb :=
-  ewalk_to_walk_aux g hs S hidden _ _ es h a b sa sb ha hb rfl rfl
+  ewalk_to_walk_aux g ord hs S hidden _ _ es h a b sa sb ha hb rfl rfl
 
 /-- … and conversely -/
-theorem walk_to_ewalk (g : Graph) (hs : g.simpleB = true) (S hidden : List Nat) (a b : Nat) (sa : Bool)
+theorem walk_to_ewalk (g : Graph) (ord : List Nat) (hs : g.simpleB = true) (S hidden : List Nat) (a b : Nat) (sa : Bool)
     (ha : a < g.n) (es : List Nat) (hes : ∀ e ∈ es, e < g.m ∧ e ∉ hidden) (hw : isWalk g es a b = true) :
-    EWalk (sgAdjE g S hidden) (sgNode g.n a sa) (sgNode g.n b (levelAfter S sa es)) es := by
+    EWalk (sgAdjE g ord S hidden) (sgNode g.n a sa) (sgNode g.n b (levelAfter S sa es)) es := by
   induction es generalizing a sa with
   | nil =>
     rw [isWalk_nil] at hw; subst hw
@@ -193,7 +213,7 @@ theorem walk_to_ewalk (g : Graph) (hs : g.simpleB = true) (S hidden : List Nat) 
     rw [levelAfter_cons]
     refine EWalk.cons (c := g.weight e) (by rw [sgAdjE_size]; exact sgNode_lt _ _ _ ha) ?_
       (ih d _ hd (fun f hf => hes f (List.mem_cons_of_mem _ hf)) hw)
-    exact (mem_sgAdjE g hs S hidden a sa ha _ _ e).2 ⟨he.1, he.2, rfl, d, hj, rfl⟩
+    exact (mem_sgAdjE g ord hs S hidden a sa ha _ _ e).2 ⟨he.1, he.2, rfl, d, hj, rfl⟩
 
 theorem ewalk_adjwalk (adjE : Array (List (Nat × Int × Nat))) (wOf : Nat → Int) (h : AdjEOK adjE wOf)
     {s t : Nat} {es : List Nat} (hw : EWalk adjE s t es) : AdjWalk (projAdj adjE) s t (es.map wOf).sum := by
@@ -231,44 +251,44 @@ theorem sgNode_ne (n a b : Nat) (sa sb : Bool) (h : a ≠ b ∨ sa ≠ sb) (ha :
   · exact h h1
   · exact h h2
 
-theorem search_sound (g : Graph) (hs : g.simpleB = true) (hp : g.positiveB = true)
+theorem search_sound (g : Graph) (ord : List Nat) (hs : g.simpleB = true) (hp : g.positiveB = true)
     (pick : Pick) (hpick : PickOK pick) (S hid : List Nat) (a : Nat) (sa : Bool) (b : Nat) (sb : Bool)
     (ha : a < g.n) (hb : b < g.n) (hne : a ≠ b ∨ sa ≠ sb) (L : Option Int) (w : Int) (Z : List Nat)
-    (hres : searchSigned g pick S hid a sa b sb L = some (w, Z)) :
+    (hres : searchSigned g ord pick S hid a sa b sb L = some (w, Z)) :
     ∃ es, WalkSpec g S hid a sa b sb es ∧ es.Nodup ∧ Z = setOf es ∧ w = listW g es ∧
       (∀ es', WalkSpec g S hid a sa b sb es' → w ≤ listW g es') ∧ Below L w := by
-  obtain ⟨hok, hsz⟩ := sgAdjE_ok g hs hp S hid
+  obtain ⟨hok, hsz⟩ := sgAdjE_ok g ord hs hp S hid
   obtain ⟨es, h1, h2, h3, h4, h5, h6⟩ := biSearch_sound _ _ hok pick hpick L _ _
     (by rw [hsz]; exact sgNode_lt _ _ _ ha) (by rw [hsz]; exact sgNode_lt _ _ _ hb)
     (sgNode_ne _ _ _ _ _ hne ha hb) w Z hres
-  refine ⟨es, ewalk_to_walk g hs S hid a b sa sb ha hb es h1, h2, h3, h4, ?_, h6⟩
+  refine ⟨es, ewalk_to_walk g ord hs S hid a b sa sb ha hb es h1, h2, h3, h4, ?_, h6⟩
   intro es' hes'
-  have hw := walk_to_ewalk g hs S hid a b sa ha es' hes'.1 hes'.2.1
+  have hw := walk_to_ewalk g ord hs S hid a b sa ha es' hes'.1 hes'.2.1
   rw [hes'.2.2] at hw
   exact h5.2 _ (ewalk_adjwalk _ _ hok hw)
 
-theorem search_complete (g : Graph) (hs : g.simpleB = true) (hp : g.positiveB = true)
+theorem search_complete (g : Graph) (ord : List Nat) (hs : g.simpleB = true) (hp : g.positiveB = true)
     (pick : Pick) (hpick : PickOK pick) (S hid : List Nat) (a : Nat) (sa : Bool) (b : Nat) (sb : Bool)
     (ha : a < g.n) (hb : b < g.n) (hne : a ≠ b ∨ sa ≠ sb) (L : Option Int) (es0 : List Nat)
     (h0 : WalkSpec g S hid a sa b sb es0)
     (hmin : ∀ es', WalkSpec g S hid a sa b sb es' → listW g es0 ≤ listW g es') (hl : Below L (listW g es0)) :
-    (∃ Z, searchSigned g pick S hid a sa b sb L = some (listW g es0, Z)) ∨
-    (searchSigned g pick S hid a sa b sb L = none ∧
+    (∃ Z, searchSigned g ord pick S hid a sa b sb L = some (listW g es0, Z)) ∨
+    (searchSigned g ord pick S hid a sa b sb L = none ∧
       ∃ es, WalkSpec g S hid a sa b sb es ∧ listW g es = listW g es0 ∧ ¬ es.Nodup) := by
-  obtain ⟨hok, hsz⟩ := sgAdjE_ok g hs hp S hid
-  have hw0 := walk_to_ewalk g hs S hid a b sa ha es0 h0.1 h0.2.1
+  obtain ⟨hok, hsz⟩ := sgAdjE_ok g ord hs hp S hid
+  have hw0 := walk_to_ewalk g ord hs S hid a b sa ha es0 h0.1 h0.2.1
   rw [h0.2.2] at hw0
-  have hD : IsDist (projAdj (sgAdjE g S hid)) (sgNode g.n a sa) (sgNode g.n b sb) (listW g es0) := by
+  have hD : IsDist (projAdj (sgAdjE g ord S hid)) (sgNode g.n a sa) (sgNode g.n b sb) (listW g es0) := by
     refine ⟨ewalk_adjwalk _ _ hok hw0, ?_⟩
     intro D' hD'
     obtain ⟨es', h1, h2⟩ := adjwalk_ewalk _ _ hok hD'
     rw [← h2]
-    exact hmin es' (ewalk_to_walk g hs S hid a b sa sb ha hb es' h1)
+    exact hmin es' (ewalk_to_walk g ord hs S hid a b sa sb ha hb es' h1)
   rcases biSearch_complete _ _ hok pick hpick L _ _
     (by rw [hsz]; exact sgNode_lt _ _ _ ha) (by rw [hsz]; exact sgNode_lt _ _ _ hb)
     (sgNode_ne _ _ _ _ _ hne ha hb) _ hD hl with h | ⟨h1, es, h2, h3, h4⟩
   · exact Or.inl h
-  · exact Or.inr ⟨h1, es, ewalk_to_walk g hs S hid a b sa sb ha hb es h2, h3, h4⟩
+  · exact Or.inr ⟨h1, es, ewalk_to_walk g ord hs S hid a b sa sb ha hb es h2, h3, h4⟩
 
 theorem listW_nonneg (g : Graph) (hp : g.positiveB = true) (es : List Nat) (h : ∀ e ∈ es, e < g.m) : 0 ≤ listW g es :=
   wt_nonneg g hp es h
@@ -527,21 +547,21 @@ theorem phase_tbb (g : Graph) (S C : List Nat) (hC : PhaseOK g 1 S C) (srch : Na
 
 /-! ### the all-vertices searches -/
 
-theorem allv_sound (g : Graph) (hs : g.simpleB = true) (hp : g.positiveB = true)
+theorem allv_sound (g : Graph) (ord : List Nat) (hs : g.simpleB = true) (hp : g.positiveB = true)
     (pk : PickFam) (hpk : ∀ i L, PickOK (pk i L)) (S : List Nat) (hS : StrictSorted S)
     (v : Nat) (hv : v < g.n) (L : Option Int) (r : Int × List Nat)
-    (h : searchSigned g (pk v L) S [] v true v false L = some r) : OddRes g S r := by
+    (h : searchSigned g ord (pk v L) S [] v true v false L = some r) : OddRes g S r := by
   obtain ⟨w, Z⟩ := r
   obtain ⟨es, h1, h2, rfl, rfl, _, _⟩ :=
-    search_sound g hs hp (pk v L) (hpk v L) S [] v true v false hv hv (Or.inr (by decide)) L w Z h
+    search_sound g ord hs hp (pk v L) (hpk v L) S [] v true v false hv hv (Or.inr (by decide)) L w Z h
   obtain ⟨q1, q2, q3⟩ := closed_trail_odd g S hS v es h2 (fun e he => (h1.1 e he).1) h1.2.1 (level_odd h1.2.2)
   exact ⟨q1, q2, q3.symm⟩
 
-theorem allv_complete (g : Graph) (hs : g.simpleB = true) (hp : g.positiveB = true)
+theorem allv_complete (g : Graph) (ord : List Nat) (hs : g.simpleB = true) (hp : g.positiveB = true)
     (pk : PickFam) (hpk : ∀ i L, PickOK (pk i L)) (S : List Nat) (hS : StrictSorted S)
     (C : List Nat) (hC : PhaseOK g 1 S C) :
     ∃ v, v < g.n ∧ ∀ L, (∀ l, L = some l → wt g C < l) →
-      ∃ c, searchSigned g (pk v L) S [] v true v false L = some (wt g C, c) := by
+      ∃ c, searchSigned g ord (pk v L) S [] v true v false L = some (wt g C, c) := by
   obtain ⟨v, es, hv, hsub, _, hw, hlev, hwt⟩ := evenset_to_signed_walk g hs hp S hS C hC.1 hC.2.1
   refine ⟨v, hv, ?_⟩
   intro L hL
@@ -557,7 +577,7 @@ theorem allv_complete (g : Graph) (hs : g.simpleB = true) (hp : g.positiveB = tr
   have heq : listW g es0 = wt g C := by
     have := hlow es0 i1
     omega
-  rcases search_complete g hs hp (pk v L) (hpk v L) S [] v true v false hv hv (Or.inr (by decide)) L es0 i1 i3
+  rcases search_complete g ord hs hp (pk v L) (hpk v L) S [] v true v false hv hv (Or.inr (by decide)) L es0 i1 i3
     (fun l hl => by rw [heq]; exact hL l hl) with ⟨Z, hZ⟩ | ⟨_, es2, j1, j2, j3⟩
   · exact ⟨Z, by rw [← heq]; exact hZ⟩
   · exfalso
@@ -593,10 +613,10 @@ theorem hidden_closed (g : Graph) (S : List Nat) (e : Nat) (heS : e ∈ S) (hem 
     · rw [List.mem_singleton] at h; subst h; exact hem
   · rw [par_app, level_even hlev, par_cons, par_nil, List.contains_iff_mem.2 heS]; rfl
 
-theorem hid_sound (g : Graph) (hs : g.simpleB = true) (hp : g.positiveB = true)
+theorem hid_sound (g : Graph) (ord : List Nat) (hs : g.simpleB = true) (hp : g.positiveB = true)
     (pk : PickFam) (hpk : ∀ i L, PickOK (pk i L)) (S : List Nat) (hS : StrictSorted S) (hSm : ∀ e ∈ S, e < g.m)
     (σ : List Nat) (hσ : σ.Perm S) (i : Nat) (L : Option Int) (r : Int × List Nat)
-    (h : hiddenIndexTbb g pk S σ i L = some r) : OddRes g S r := by
+    (h : hiddenIndexTbb g ord pk S σ i L = some r) : OddRes g S r := by
   unfold hiddenIndexTbb at h
   cases hi : σ[i]? with
   | none => rw [hi] at h; cases h
@@ -607,7 +627,7 @@ theorem hid_sound (g : Graph) (hs : g.simpleB = true) (hp : g.positiveB = true)
     have hem := hSm e heS
     have hf := simpleB_facts g hs e hem
     unfold hiddenSearch at h
-    cases hres : searchSigned g (pk e L) S (σ.drop i) (g.src e) true (g.tgt e) true L with
+    cases hres : searchSigned g ord (pk e L) S (σ.drop i) (g.src e) true (g.tgt e) true L with
     | none => rw [hres] at h; cases h
     | some wz =>
       obtain ⟨w, Z⟩ := wz
@@ -618,7 +638,7 @@ theorem hid_sound (g : Graph) (hs : g.simpleB = true) (hp : g.positiveB = true)
       · simp only [Option.some.injEq] at h
         subst h
         obtain ⟨es, h1, h2, rfl, rfl, _, _⟩ :=
-          search_sound g hs hp (pk e L) (hpk e L) S (σ.drop i) _ true _ true hf.1 hf.2.1 (Or.inl hf.2.2) L w Z hres
+          search_sound g ord hs hp (pk e L) (hpk e L) S (σ.drop i) _ true _ true hf.1 hf.2.1 (Or.inl hf.2.2) L w Z hres
         have hnot : e ∉ es := fun he => (h1.1 e he).2 (mem_drop_of_getElem? hi)
         obtain ⟨c1, c2, c3⟩ := hidden_closed g S e heS hem es (fun f hf => (h1.1 f hf).1) h1.2.1 h1.2.2
         have hnd : (es ++ [e]).Nodup := by
@@ -633,11 +653,11 @@ theorem hid_sound (g : Graph) (hs : g.simpleB = true) (hp : g.positiveB = true)
         rw [setOf_snoc] at q1 q2
         exact ⟨q1, q2, q3.symm⟩
 
-theorem hid_complete (g : Graph) (hs : g.simpleB = true) (hp : g.positiveB = true)
+theorem hid_complete (g : Graph) (ord : List Nat) (hs : g.simpleB = true) (hp : g.positiveB = true)
     (pk : PickFam) (hpk : ∀ i L, PickOK (pk i L)) (S : List Nat) (hS : StrictSorted S) (hSm : ∀ e ∈ S, e < g.m)
     (σ : List Nat) (hσ : σ.Perm S) (C : List Nat) (hC : PhaseOK g 1 S C) :
     ∃ j, j < σ.length ∧ ∀ L, (∀ l, L = some l → wt g C < l) →
-      ∃ c, hiddenIndexTbb g pk S σ j L = some (wt g C, c) := by
+      ∃ c, hiddenIndexTbb g ord pk S σ j L = some (wt g C, c) := by
   obtain ⟨j, e, es, hje, havoid, hw, hlev, hwt⟩ := hiddenEdge_covers g hs hp S σ hS hσ C hC.1 hC.2.1
   have hjl : j < σ.length := by
     rcases Nat.lt_or_ge j σ.length with h | h
@@ -667,10 +687,10 @@ theorem hid_complete (g : Graph) (hs : g.simpleB = true) (hp : g.positiveB = tru
   rw [hje]
   simp only
   unfold hiddenSearch
-  rcases search_complete g hs hp (pk e L) (hpk e L) S (σ.drop j) _ true _ true hf.1 hf.2.1 (Or.inl hf.2.2) L es0 i1 i3
+  rcases search_complete g ord hs hp (pk e L) (hpk e L) S (σ.drop j) _ true _ true hf.1 hf.2.1 (Or.inl hf.2.2) L es0 i1 i3
     (fun l hl => by have := hL l hl; omega) with ⟨Z, hZ⟩ | ⟨_, es2, j1, j2, j3⟩
   · obtain ⟨es1, k1, _, rfl, _, _, _⟩ :=
-      search_sound g hs hp (pk e L) (hpk e L) S (σ.drop j) _ true _ true hf.1 hf.2.1 (Or.inl hf.2.2) L _ Z hZ
+      search_sound g ord hs hp (pk e L) (hpk e L) S (σ.drop j) _ true _ true hf.1 hf.2.1 (Or.inl hf.2.2) L _ Z hZ
     have hnot : (setOf es1).contains e = false := by
       cases hc : (setOf es1).contains e with
       | false => rfl
@@ -699,10 +719,10 @@ theorem hiddenTake_eq (g : Graph) (e : Nat) (best res : Cyc (List Nat)) :
     · cases best <;> rfl
     · cases best <;> rfl
 
-theorem hiddenLoop_eq (g : Graph) (pk : PickFam) (S σ : List Nat) :
+theorem hiddenLoop_eq (g : Graph) (ord : List Nat) (pk : PickFam) (S σ : List Nat) :
     ∀ (k i : Nat) (best : Cyc (List Nat)), σ.length - i = k →
-      hiddenLoop g pk S (σ.drop i) best =
-        minFold (hiddenIndexTbb g pk S σ) (List.range' i (σ.length - i)) best := by
+      hiddenLoop g ord pk S (σ.drop i) best =
+        minFold (hiddenIndexTbb g ord pk S σ) (List.range' i (σ.length - i)) best := by
   intro k
   induction k with
   | zero =>
@@ -723,15 +743,15 @@ theorem hiddenLoop_eq (g : Graph) (pk : PickFam) (S σ : List Nat) :
     simp only
     rw [List.drop_eq_getElem_cons hi]
 
-theorem hiddenLoop_seqMin (g : Graph) (pk : PickFam) (S σ : List Nat) :
-    hiddenLoop g pk S σ none = seqMin (hiddenIndexTbb g pk S σ) 0 σ.length := by
-  have := hiddenLoop_eq g pk S σ σ.length 0 none rfl
+theorem hiddenLoop_seqMin (g : Graph) (ord : List Nat) (pk : PickFam) (S σ : List Nat) :
+    hiddenLoop g ord pk S σ none = seqMin (hiddenIndexTbb g ord pk S σ) 0 σ.length := by
+  have := hiddenLoop_eq g ord pk S σ σ.length 0 none rfl
   rw [List.drop_zero] at this
   exact this
 
 /-! ### the phases -/
 
-theorem sgAdjE_single (g : Graph) (e : Nat) : sgAdjE g [] [e] = sgAdjE g [e] [e] := by
+theorem sgAdjE_single (g : Graph) (ord : List Nat) (e : Nat) : sgAdjE g ord [] [e] = sgAdjE g ord [e] [e] := by
   unfold sgAdjE
   congr 1
   funext x
@@ -747,26 +767,26 @@ theorem sgAdjE_single (g : Graph) (e : Nat) : sgAdjE g [] [e] = sgAdjE g [e] [e]
     have h2 : [e].contains e' = false := by simpa using h
     rw [h1, h2]
 
-theorem singleEdgeTbb_eq (g : Graph) (pk : PickFam) (e : Nat) :
-    singleEdgeTbb g pk e = hiddenIndexTbb g pk [e] [e] 0 none := by
+theorem singleEdgeTbb_eq (g : Graph) (ord : List Nat) (pk : PickFam) (e : Nat) :
+    singleEdgeTbb g ord pk e = hiddenIndexTbb g ord pk [e] [e] 0 none := by
   unfold singleEdgeTbb hiddenIndexTbb hiddenSearch searchSigned
   rw [sgAdjE_single]
   rfl
 
-theorem tbb_general (g : Graph) (hs : g.simpleB = true) (hp : g.positiveB = true)
+theorem tbb_general (g : Graph) (ord : List Nat) (hs : g.simpleB = true) (hp : g.positiveB = true)
     (pk : PickFam) (hpk : ∀ i L, PickOK (pk i L)) (S : List Nat) (hS : StrictSorted S) (hSm : ∀ e ∈ S, e < g.m)
     (σ : List Nat) (hσ : σ.Perm S) (hex : ∃ Z, EvenSet g Z ∧ dotPar Z S = true)
     (s : Sched) (hcov : s.Covers 0 (if g.n ≤ S.length then g.n else S.length)) :
-    PhaseFound g S (if g.n ≤ S.length then allVerticesTbb g pk S s else hiddenTbb g pk S σ s) := by
+    PhaseFound g S (if g.n ≤ S.length then allVerticesTbb g ord pk S s else hiddenTbb g ord pk S σ s) := by
   obtain ⟨C, hC⟩ := phaseOK_exists g hp S hex
   by_cases hn : g.n ≤ S.length
   · rw [if_pos hn] at hcov ⊢
-    exact phase_tbb g S C hC _ g.n (fun i L r hi h => allv_sound g hs hp pk hpk S hS i hi L r h)
-      (allv_complete g hs hp pk hpk S hS C hC) s hcov
+    exact phase_tbb g S C hC _ g.n (fun i L r hi h => allv_sound g ord hs hp pk hpk S hS i hi L r h)
+      (allv_complete g ord hs hp pk hpk S hS C hC) s hcov
   · rw [if_neg hn] at hcov ⊢
     rw [← hσ.length_eq] at hcov
-    exact phase_tbb g S C hC _ σ.length (fun i L r _ h => hid_sound g hs hp pk hpk S hS hSm σ hσ i L r h)
-      (hid_complete g hs hp pk hpk S hS hSm σ hσ C hC) s hcov
+    exact phase_tbb g S C hC _ σ.length (fun i L r _ h => hid_sound g ord hs hp pk hpk S hS hSm σ hσ i L r h)
+      (hid_complete g ord hs hp pk hpk S hS hSm σ hσ C hC) s hcov
 
 /-! ### the main loop -/
 
@@ -890,45 +910,45 @@ theorem foldl_weights (g : Graph) : ∀ (ph : List CycW) (a : Int), (∀ p ∈ p
 
 /-- **one phase of `mcb_sva_signed`** — both branches, for every heap behaviour and every iteration order `σ` of the
 `std::set` of signed edges -/
-theorem signedPhaseSearch_ok (g : Graph) (hs : g.simpleB = true) (hp : g.positiveB = true)
+theorem signedPhaseSearch_ok (g : Graph) (ord : List Nat) (hs : g.simpleB = true) (hp : g.positiveB = true)
     (pk : PickFam) (hpk : ∀ i L, PickOK (pk i L)) (S : List Nat) (hS : StrictSorted S) (hSm : ∀ e ∈ S, e < g.m)
     (σ : List Nat) (hσ : σ.Perm S) (hex : ∃ Z, EvenSet g Z ∧ dotPar Z S = true) :
-    PhaseFound g S (signedPhaseSearch g pk σ S) := by
+    PhaseFound g S (signedPhaseSearch g ord pk σ S) := by
   obtain ⟨C, hC⟩ := phaseOK_exists g hp S hex
   unfold signedPhaseSearch
   by_cases hn : g.n ≤ S.length
   · rw [if_pos hn]
-    exact phase_seq g S C hC _ g.n (fun i L r hi h => allv_sound g hs hp pk hpk S hS i hi L r h)
-      (allv_complete g hs hp pk hpk S hS C hC)
+    exact phase_seq g S C hC _ g.n (fun i L r hi h => allv_sound g ord hs hp pk hpk S hS i hi L r h)
+      (allv_complete g ord hs hp pk hpk S hS C hC)
   · rw [if_neg hn, hiddenLoop_seqMin]
-    exact phase_seq g S C hC _ σ.length (fun i L r _ h => hid_sound g hs hp pk hpk S hS hSm σ hσ i L r h)
-      (hid_complete g hs hp pk hpk S hS hSm σ hσ C hC)
+    exact phase_seq g S C hC _ σ.length (fun i L r _ h => hid_sound g ord hs hp pk hpk S hS hSm σ hσ i L r h)
+      (hid_complete g ord hs hp pk hpk S hS hSm σ hσ C hC)
 
 /-- **one phase of `mcb_sva_signed_tbb`** (`OddCycleFinder::find`: single-edge shortcut / all vertices / hidden-edge
 heuristic) — additionally for every execution of the `parallel_reduce` -/
-theorem signedPhaseSearchTbb_ok (g : Graph) (hs : g.simpleB = true) (hp : g.positiveB = true)
+theorem signedPhaseSearchTbb_ok (g : Graph) (ord : List Nat) (hs : g.simpleB = true) (hp : g.positiveB = true)
     (pk : PickFam) (hpk : ∀ i L, PickOK (pk i L)) (S : List Nat) (hS : StrictSorted S) (hSm : ∀ e ∈ S, e < g.m)
     (σ : List Nat) (hσ : σ.Perm S) (hex : ∃ Z, EvenSet g Z ∧ dotPar Z S = true)
     (s : Sched) (hcov : s.Covers 0 (if g.n ≤ S.length then g.n else S.length)) :
-    PhaseFound g S (signedPhaseSearchTbb g pk σ S s) := by
+    PhaseFound g S (signedPhaseSearchTbb g ord pk σ S s) := by
   match S, hS, hSm, hσ, hex, hcov with
-  | [], hS, hSm, hσ, hex, hcov => exact tbb_general g hs hp pk hpk [] hS hSm σ hσ hex s hcov
+  | [], hS, hSm, hσ, hex, hcov => exact tbb_general g ord hs hp pk hpk [] hS hSm σ hσ hex s hcov
   | [e], hS, hSm, hσ, hex, hcov =>
     obtain ⟨C, hC⟩ := phaseOK_exists g hp [e] hex
     have hσe : σ = [e] := List.perm_singleton.1 hσ
     subst hσe
-    show PhaseFound g [e] (singleEdgeTbb g pk e)
+    show PhaseFound g [e] (singleEdgeTbb g ord pk e)
     rw [singleEdgeTbb_eq]
-    obtain ⟨j, hj, hcomp⟩ := hid_complete g hs hp pk hpk [e] hS hSm [e] hσ C hC
+    obtain ⟨j, hj, hcomp⟩ := hid_complete g ord hs hp pk hpk [e] hS hSm [e] hσ C hC
     have hj0 : j = 0 := by simp at hj; omega
     subst hj0
     obtain ⟨c, hc⟩ := hcomp none (fun l hl => by cases hl)
     apply phaseFound_of g [e] C hC
     · rw [hc]; rfl
     · intro r hr
-      exact hid_sound g hs hp pk hpk [e] hS hSm [e] hσ 0 none r hr
+      exact hid_sound g ord hs hp pk hpk [e] hS hSm [e] hσ 0 none r hr
   | a :: b :: rest, hS, hSm, hσ, hex, hcov =>
-    exact tbb_general g hs hp pk hpk (a :: b :: rest) hS hSm σ hσ hex s hcov
+    exact tbb_general g ord hs hp pk hpk (a :: b :: rest) hS hSm σ hσ hex s hcov
 
 /-- **main loop**: if every phase's search delivers `PhaseFound` whenever an odd element exists, the literal main loop
 (sparsest-support swap of the variant, update, emission) is a run of the relational model from the given start state -/
@@ -1080,7 +1100,7 @@ theorem mcbSigned_correct (g : Graph) (hs : g.simpleB = true) (hp : g.positiveB 
     McbCorrect g order (mcbSigned g order pick σ) := by
   have hd := C16.c16_exact_domain g order hs hp ho
   exact SignedAlgoL.mcb_correct_of_core g hs hp order ho .signed _ (List.Perm.refl _) _
-    (fun k S hS hSm hex => SignedAlgoL.signedPhaseSearch_ok _ hd.simple hd.positive (pick k) (hpick k) S hS hSm
+    (fun k S hS hSm hex => SignedAlgoL.signedPhaseSearch_ok _ _ hd.simple hd.positive (pick k) (hpick k) S hS hSm
       (σ k S) (hσ k S) hex)
 
 /-- **`mcb_sva_signed_tbb`, end to end**: additionally for every order `perm` in which the concurrent `push_back`s filled
@@ -1095,7 +1115,7 @@ theorem mcbSignedTbb_correct (g : Graph) (hs : g.simpleB = true) (hp : g.positiv
   have hd := C16.c16_exact_domain g order hs hp ho
   have hp0 : (perm.map fun i => [i]).Perm (unitSupports (createIndex g order).dim) := hperm.map _
   exact SignedAlgoL.mcb_correct_of_core g hs hp order ho .signedTbb _ hp0 _
-    (fun k S hS hSm hex => SignedAlgoL.signedPhaseSearchTbb_ok _ hd.simple hd.positive (pick k) (hpick k) S hS hSm
+    (fun k S hS hSm hex => SignedAlgoL.signedPhaseSearchTbb_ok _ _ hd.simple hd.positive (pick k) (hpick k) S hS hSm
       (σ k S) (hσ k S) hex (scheds k S) (hcov k S))
 
 end Parmcb
